@@ -49,6 +49,26 @@ def deletion_sets(pre, E):
     return must, may
 
 
+def expiration_verdict(v, T):
+    """one expiration value at pass time T -> 'must' (remove), 'may', 'keep'.
+    canonical numeral: decided by its value (the same second is free); a string some reasonable parser
+    still reads as a number (leading zeros, sign, blanks, float syntax, non-ASCII digits) is free;
+    anything else is not a timestamp at all: the event is 'another event' and stays"""
+    c = model.canon_expiration(v)
+    if c is not None:
+        return "must" if c < int(T) else ("may" if c == int(T) else "keep")
+    if isinstance(v, (int, float)) and not isinstance(v, bool):
+        return "may"
+    if isinstance(v, str):
+        for parse in (int, float):
+            try:
+                parse(v)
+                return "may"
+            except (ValueError, OverflowError):
+                pass
+    return "keep"
+
+
 def gc_sets(pre, T):
     """C17: (must_remove, may_remove) for a collection pass at time T"""
     must, may = set(), set()
@@ -62,16 +82,11 @@ def gc_sets(pre, T):
                 if isinstance(t, list) and t and t[0] == "expiration"]
         if not exps:
             continue
-        if len(exps) > 1:
-            may.add(i)
-            continue
-        v = model.canon_expiration(exps[0])
-        if v is None:
-            may.add(i)        # malformed: the statement only speaks of well-formed timestamps
-        elif v < int(T):
+        verdicts = {expiration_verdict(v, T) for v in exps}
+        if verdicts == {"must"}:
             must.add(i)
-        elif v == int(T):
-            may.add(i)        # boundary second
+        elif verdicts != {"keep"}:
+            may.add(i)        # the same second, a doubtful numeral, or several tags that disagree
     return must, may
 
 
